@@ -235,6 +235,11 @@ partial def tpipeOfJson (j : Json) : Except String Trace.TPipe := do
   | "localShuffle" => do
       pure (.localShuffle (← getNat j "bs") (← (← getArr j "choices").mapM (·.getNat?))
         (← (← getArr j "final").mapM (·.getNat?)) (← tpipeOfJson (← j.getObjVal? "p")))
+  | "catch" => do pure (.catch (← errsOfJson (← getArr j "E")) (← tpipeOfJson (← j.getObjVal? "p")))
+  | "reshuffle" => do pure (.reshuffle (← (← getArr j "perm").mapM (·.getNat?)) (← tpipeOfJson (← j.getObjVal? "p")))
+  | "cache" => do pure (.cache (← tpipeOfJson (← j.getObjVal? "p")))
+  | "tile" => do pure (.tile (← getNat j "r") (← tpipeOfJson (← j.getObjVal? "p")))
+  | "intersperse" => do pure (.intersperse (← tpipeOfJson (← j.getObjVal? "p")) (← tpipeOfJson (← j.getObjVal? "q")))
   | _ => throw s!"unknown trace op {op}"
 
 def logJ (l : Trace.Log) : Json := Json.arr (l.map (fun c => Json.arr #[natToJson c.stage, valToJson c.arg])).toArray
